@@ -4,10 +4,18 @@ import (
 	"bytes"
 	"crypto/rand"
 	"fmt"
+	"testing/iotest"
+
+	"github.com/ipfs/go-cid"
+
+	"github.com/ucan-wg/go-ucan/token"
+	"github.com/ucan-wg/go-ucan/token/delegation"
+	"github.com/ucan-wg/go-ucan/token/invocation"
 
 	"github.com/ucan-wg/go-ucan/pkg/meta"
 
 	"verifharness/engine"
+	"verifharness/fixtures"
 )
 
 // ---- every way the random source can begin ----
@@ -274,6 +282,135 @@ func c19OddKeySub() *engine.Sub {
 				ctx.Failf(cs, "wrong-key-returns-data/"+names[cs.Key], "a key one bit away from %q decrypts the value", names[cs.Key])
 			}
 			ctx.Outcome("ok")
+		},
+	}
+}
+
+// ---- large values through every unsealing call ----
+
+type c19BigCase struct {
+	Kind string `json:"kind"`
+	Len  int    `json:"len"`
+}
+
+func (c *c19BigCase) Weight() int { return c.Len / 1000 }
+
+func c19BigSub() *engine.Sub {
+	lens := func(tier string) []int {
+		if tier == "thorough" {
+			return []int{65536, 1 << 20, 4 << 20, 8 << 20, 9_999_000, 9_999_900, 10_000_000, 10_100_000, 10_300_000, 10_480_000}
+		}
+		return []int{1 << 20, 9_999_900, 10_300_000}
+	}
+	return &engine.Sub{
+		Name:   "large-values-through-every-unsealing-call",
+		Serial: true,
+		Rule:   "an encrypted metadata value of 1 MiB up to just above 10^7 bytes (around the decimal and binary 10 MB marks, where size limits live) in a delegation / invocation, sealed once and unsealed with every call that takes sealed bytes - token.FromSealed, token.FromSealedReader, the typed FromSealed and FromSealedReader: as soon as one of them accepts the token all of them do, and each returns the plaintext unchanged under the key (and an error under another key); a size that every call refuses is outside what the decoders take (outcome too-large-for-every-decoder); non-trivial = sizes accepted",
+		Bound: func(t string) string {
+			return fmt.Sprintf("2 kinds x plaintext lengths %v x 4 unsealing calls", lens(t))
+		},
+		Gen: func(tier string, emit func(any) bool) {
+			for _, l := range lens(tier) {
+				for _, kind := range []string{"dlg", "inv"} {
+					if tier != "thorough" && kind == "inv" && l != 9_999_900 {
+						continue
+					}
+					if !emit(&c19BigCase{kind, l}) {
+						return
+					}
+				}
+			}
+		},
+		NewCase: func() any { return &c19BigCase{} },
+		Run: func(ctx *engine.Ctx, c any) {
+			cs := c.(*c19BigCase)
+			pt := c19Plain(cs.Len, "counter")
+			k := fixtures.Get("ed25519", 0)
+			ctx.States(1)
+			var tok sealer
+			var err error
+			if cs.Kind == "dlg" {
+				tok, err = delegation.New(k.DID, otherPrincipal(k, 1), "/a", nil, delegation.WithEncryptedMetaBytes("secret", pt, c19Key), delegation.WithNonce(fixedNonce))
+			} else {
+				tok, err = invocation.New(k.DID, otherPrincipal(k, 1), "/a", []cid.Cid{cidPool[0]}, invocation.WithEncryptedMetaBytes("secret", pt, c19Key), invocation.WithNonce(fixedNonce))
+			}
+			if err != nil {
+				ctx.Outcome("constructor-refuses")
+				return
+			}
+			data, _, err := tok.ToSealed(k.Priv)
+			if err != nil {
+				ctx.Outcome("seal-refuses")
+				return
+			}
+			type res struct {
+				name string
+				ro   meta.ReadOnly
+				err  error
+			}
+			metaOf := func(t any, err error) (meta.ReadOnly, error) {
+				if err != nil {
+					return meta.ReadOnly{}, err
+				}
+				switch t := t.(type) {
+				case *delegation.Token:
+					return t.Meta(), nil
+				case *invocation.Token:
+					return t.Meta(), nil
+				}
+				return meta.ReadOnly{}, fmt.Errorf("unexpected %T", t)
+			}
+			var rs []res
+			add := func(name string, t any, err error) {
+				ro, e := metaOf(t, err)
+				rs = append(rs, res{name, ro, e})
+				ctx.Eval(1)
+				ctx.Trans(1)
+			}
+			{
+				t, _, err := token.FromSealed(data)
+				add("token.FromSealed", t, err)
+			}
+			{
+				t, _, err := token.FromSealedReader(bytes.NewReader(data))
+				add("token.FromSealedReader", t, err)
+			}
+			if cs.Kind == "dlg" {
+				t, _, err := delegation.FromSealed(data)
+				add("delegation.FromSealed", t, err)
+				t2, _, err := delegation.FromSealedReader(iotest.HalfReader(bytes.NewReader(data)))
+				add("delegation.FromSealedReader", t2, err)
+			} else {
+				t, _, err := invocation.FromSealed(data)
+				add("invocation.FromSealed", t, err)
+				t2, _, err := invocation.FromSealedReader(iotest.HalfReader(bytes.NewReader(data)))
+				add("invocation.FromSealedReader", t2, err)
+			}
+			okN := 0
+			for _, r := range rs {
+				if r.err == nil {
+					okN++
+				}
+			}
+			if okN == 0 {
+				ctx.Outcome("too-large-for-every-decoder")
+				return
+			}
+			ctx.Nontrivial(1)
+			ctx.Outcome("accepted")
+			for _, r := range rs {
+				if r.err != nil {
+					ctx.Failf(cs, "token/unseal-fails/"+r.name, "a %s with an encrypted value of %d bytes (sealed: %d bytes) is refused by %s (%v) while %d other unsealing calls accept the same bytes", cs.Kind, cs.Len, len(data), r.name, r.err, okN)
+					continue
+				}
+				got, err := r.ro.GetEncryptedBytes("secret", c19Key)
+				if err != nil || !bytes.Equal(got, pt) {
+					ctx.Failf(cs, "token/roundtrip/"+r.name, "the plaintext of %d bytes does not come back after %s: %v", cs.Len, r.name, err)
+				}
+				if _, err := r.ro.GetEncryptedBytes("secret", bytes.Repeat([]byte{0xff}, 32)); err == nil {
+					ctx.Failf(cs, "token/wrong-key-returns-data", "a different key decrypts the value after %s", r.name)
+				}
+			}
 		},
 	}
 }
